@@ -130,6 +130,13 @@ def check_memory(case):
     ))
     H.require_clean(r, 'csv dump -> load', **ctx)
     compare(case, case['rows'], r.items, ctx)
+    # the same parser / load operators serve a second stream: the header is consumed again, the rows parsed the same way
+    lines = drive.collect(rx.from_(rows).pipe(csv.dump(header=True, separator=case['sep'], escapechar=case['esc']), line.unframe()))
+    loaded = rx.from_(lines.items).pipe(csv.load(parser))
+    for n in (1, 2):
+        r2 = drive.collect(loaded)
+        H.require_clean(r2, 'subscription %d of the same csv.load observable' % n, **ctx)
+        compare(case, case['rows'], r2.items, ctx)
     return info(case)
 
 
